@@ -147,19 +147,20 @@ def build_world(bdir, world, archives, variant, log):
     if os.path.exists(exe):
         return exe
     inc = ["-I", f"{REPO}/mptcore", "-I", f"{REPO}/mptio", "-I", f"{REPO}/mptplot", "-I", f"{REPO}/mpt++",
-           "-I", f"{VERIF}/sim"]
+           "-I", f"{VERIF}/sim", "-I", f"{REPO}/mptcore/types"]
     kdir = os.path.join(bdir, "o_kernel" + variant)
     os.makedirs(kdir, exist_ok=True)
     ksrc = sorted(glob.glob(f"{VERIF}/sim/kernel/*.cpp")) + sorted(glob.glob(f"{VERIF}/sim/kernel/*.c"))
     wsrc = f"{VERIF}/sim/worlds/{world}.cpp"
+    wextra = sorted(glob.glob(f"{VERIF}/sim/worlds/{world}_*.c"))   # C helpers of a world (e.g. registry reset)
     defs = [f'-DVERIF_REPO="{REPO}"', f'-DVERIF_DIR="{VERIF}"']
     if variant == "p16":
         defs.append("-D_MPT_BUFFER_PSTD=16")
     jobs, objs = [], []
-    for s in ksrc + [wsrc]:
+    for s in ksrc + [wsrc] + wextra:
         o = os.path.join(kdir, os.path.basename(s) + ".o")
         objs.append(o)
-        if os.path.exists(o) and s != wsrc:
+        if os.path.exists(o) and s != wsrc and s not in wextra:
             continue
         cc = ["g++", "-std=gnu++17"] if s.endswith(".cpp") else ["gcc", "-std=gnu11"]
         jobs.append(cc + ["-O1", "-g1", "-fno-omit-frame-pointer", "-Wall", "-Wno-unused-function",
